@@ -126,8 +126,11 @@ Created(p, c, d) ==
     [f \in DOMAIN c |-> IF f \in QosFields(p) /\ c[f] = UNSET THEN d[f] ELSE c[f]]
 
 \* static validity of a creator record (checked before anything is touched)
+\* (tv = 2: a FlatBuffers payload for which no schema file exists - the type definition cannot be acquired)
 CreateCheck(p, s) ==
     IF p = "ps" /\ s.ov = 0 /\ s.buf < s.hist
     THEN "SubscriberBufferMustBeLargerThanHistorySize"
+    ELSE IF p = "ps" /\ s.tv = 2
+    THEN "UnableToAcquireTypeDefinition"
     ELSE "Ok"
 =============================================================================
